@@ -48,8 +48,8 @@ Definition hc_decided (p : hcpc) : bool := match p with HCStop | HCDone => true 
 
 Record InvH (s : state) : Prop := {
   h_1 : ctx_done s = true -> early_cancel s = true \/ closingCh s = true;
-  h_2 : forall h : hid, hstop s h = true -> hc s h = HCDone;
-  h_3 : forall h : hid, hc s h = HCCheck -> ctx_done s = true;
+  h_2 : forall h : hid, hstop s h = true -> hc s h = HCDone \/ early_cancel s = true \/ closingCh s = true;
+  h_3 : forall h : hid, hc s h = HCCheck -> ctx_done s = true \/ hstop s h = true;
   h_4 : forall h : hid, hc s h = HCWaitPump -> 1 <= sub_closes s h;
   h_4' : forall h : hid, hc s h = HCDecSignal -> 1 <= sub_closes s h;
   h_4'' : forall h : hid, hc s h = HCInSubClose -> 1 <= sub_closes s h;
@@ -71,8 +71,10 @@ Proof.
   all: unfold hctx_done in *.
   all: try solve [ repeat match goal with Hb : orb _ _ = true |- _ => apply orb_true_iff in Hb; destruct Hb end;
                    rew_pcs; simpl in *; fwd; rew_pcs; simpl in *; intuition (congruence || lia) ].
-  - destruct (closingCh s); [right; reflexivity | left; rewrite orb_true_r; reflexivity].
-  - apply orb_false_iff in H0. destruct H0 as [He _]. auto.
+  all: try (match goal with H0 : orb _ _ = false |- _ => apply orb_false_iff in H0; destruct H0 end; solve [auto]).
+  all: try (destruct (closingCh s) eqn:Ecl; simpl; rewrite ?orb_true_r, ?orb_false_r; simpl;
+            solve [ auto | right; auto | right; right; reflexivity | right; left; reflexivity | left; reflexivity
+                  ]).
 Qed.
 
 
